@@ -60,6 +60,7 @@ fn main() {
             "vanish" => Some(ctl_scen::vanish_family),
             "vanishdata" => Some(ctl_scen::vanishdata_family),
             "idle" => Some(ctl_scen::idle_family),
+            "par" => Some(ctl_scen::par_family),
             _ => None,
         };
         if let Some(f) = fam {
